@@ -171,7 +171,7 @@ PARTS = {
     "C13": ["c13", "c13b"],
     "C14": ["c14", "c14b"],
     "C15": ["c15", "c15b"],
-    "C16": ["c16", "c16b"],
+    "C16": ["c16", "c16b", "c16c"],
     "C18": ["c18", "c18b"],
 }
 
